@@ -889,6 +889,9 @@ class UsersDictionary(utils.IterableMap):
         # Changing one user can change who is the unique match of any cached
         # hostmask (this user may now match it as well).
         self._hostmaskCache.clear()
+        # The name check above may just have cached the user's new name over
+        # the entry that would let invalidateCache find the old one.
+        self._nameCache.clear()
         self.invalidateCache(user.id)
         self.users[user.id] = user
         if flush:
